@@ -211,10 +211,25 @@ class BatchLoader(LoaderBase):
     ) -> DaskArrayList:
         """Construct batch loading tasks."""
         _backend = backend or Backend()
-        return DaskArrayList.concat(
-            loader.construct_loading_tasks(output_shape=output_shape, backend=_backend)
-            for loader in self.loaders
-        )
+        image_ids = self.molecules.features[IMAGE_ID_LABEL].to_numpy()
+        tasks: list[da.Array | None] = [None] * len(image_ids)
+        for key, group in self.molecules.groupby(IMAGE_ID_LABEL):
+            loader = SubtomogramLoader(
+                self._images[key],
+                group,
+                self.order,
+                self.scale,
+                self.output_shape,
+                self.corner_safe,
+            )
+            sub_tasks = loader.construct_loading_tasks(
+                output_shape=output_shape, backend=_backend
+            )
+            # put each task at the position of its molecule in the batch
+            indices = np.flatnonzero(image_ids == key)
+            for i, task in zip(indices, sub_tasks):
+                tasks[i] = task
+        return DaskArrayList(tasks)  # type: ignore
 
 
 class LoaderAccessor:
